@@ -329,6 +329,42 @@ def r5_wrappers(ctx: Ctx, m: pf.Module) -> None:
         ctx.check(okp, 'R5', f'{FE}::{name}::pass-through', 'this decorator does not simply call the wrapped handler with the request', m.path, fn.lineno)
 
 
+def r6_scoped_listings(ctx: Ctx) -> None:
+    """Listing queries are scoped by conjuncts such as `jobs.batch_id = %s` / `billing_project_users.user = %s`; every further condition
+    is ANDed on.  A condition whose top-level operator is OR (not wrapped in parentheses) would turn the scope into one alternative."""
+    from engines import sqlclosed as sc
+    qm = pf.load('batch/batch/front_end/query/query.py')
+    method_closed: Dict[str, bool] = {}
+    for cls in qm.classes():
+        for fn in cls.body:
+            if isinstance(fn, ast.FunctionDef) and fn.name == 'query' and not any(isinstance(x, ast.Raise) and len(fn.body) == 1 for x in fn.body):
+                try:
+                    method_closed[cls.name] = sc.method_returns_closed(qm, fn)
+                except AnalysisError as e:
+                    raise AnalysisError(f'query.py::{cls.name}.query: {e}')
+    ctx.need(len(method_closed) >= 20, f'only {len(method_closed)} Query.query methods analysed')
+    ctx.unit('query_term_classes', len(method_closed))
+    for rel, funcs in (('batch/batch/front_end/query/query_v1.py', ['parse_list_batches_query_v1', 'parse_job_group_jobs_query_v1', 'parse_list_job_groups_query_v1']),
+                       ('batch/batch/front_end/query/query_v2.py', ['parse_list_batches_query_v2', 'parse_job_group_jobs_query_v2'])):
+        m = pf.load(rel)
+        for name in funcs:
+            if not m.has_func(name):
+                continue
+            fn = m.func(name)
+            c = sc.Closedness(m, method_closed)
+            sinks: List = []
+            c.run(fn.body, {}, sinks, 'where_conditions')
+            joins = [n for n in ast.walk(fn) if isinstance(n, ast.Call) and isinstance(n.func, ast.Attribute) and n.func.attr == 'join' and n.args and pf.nsrc(n.args[0]) == 'where_conditions']
+            if not sinks and not joins:
+                continue
+            ctx.need(joins and all(pf.const_str(j.func.value).strip().upper() == 'AND' for j in joins), f'{rel}::{name}: where_conditions are not joined with AND')
+            for closed, node in sinks:
+                ctx.check(closed, 'R6', f'{rel}::{name}::AND-term `{pf.nsrc(node)[:60]}`', 'this condition is ANDed into the scoped WHERE clause without parentheses although its top-level operator may be OR '
+                          '(AND binds tighter): the batch / billing-project restriction becomes one alternative and rows of other batches are returned', m.path, node.lineno)
+            scope = any('batch_id = %s' in pf.nsrc(n) or 'billing_project_users' in pf.nsrc(n) for _, n in sinks)
+            ctx.check(scope, 'R6', f'{rel}::{name}::scope conjunct', 'the listing has no conjunct restricting it to the requested batch / the caller\'s billing projects', m.path, fn.lineno)
+
+
 def run(ctx: Ctx) -> None:
     ctx.explanation = 'Classification of all routes by resolved decorator chain against the statement\'s partition of endpoints; inter-procedural owner-filter dominance for owner-only mutations.'
     ctx.rule('R1', 'unauthenticated handlers are exactly the listed public endpoints', 8)
@@ -336,6 +372,7 @@ def run(ctx: Ctx) -> None:
     ctx.rule('R3', 'owner-only mutations: every reachable write is dominated by an owner filter for (caller, path batch id)', 18)
     ctx.rule('R4', 'billing project / limit administration requires developer or auth service', 13)
     ctx.rule('R5', 'the authenticating wrappers block before calling the handler; pass-through decorators pass through', 9)
+    ctx.rule('R6', 'listing queries: every condition ANDed onto the batch / billing-project scope is closed under AND (parenthesised or no top-level OR)', 22)
     m = pf.load(FE)
     rts = routes_of(m)
     ctx.unit('routes', sum(len(r) for _, r, _ in rts))
@@ -368,3 +405,4 @@ def run(ctx: Ctx) -> None:
                 ctx.ok('R2', cons, f'level {lv}')
     check_forwarding(ctx, m)
     r5_wrappers(ctx, m)
+    r6_scoped_listings(ctx)
